@@ -10,7 +10,8 @@ PIECES = ['Wort', 'a', '<b>', '&amp;', '"q"', 'x > y', '\n', '\n', ' ', ' ', '\\
 
 
 def gen(rnd):
-    src = ''.join(rnd.choice(PIECES) for _ in range(rnd.randint(3, 25))) + '\n'
+    # (a file without final line break gets one from the shell)
+    src = ''.join(rnd.choice(PIECES) for _ in range(rnd.randint(3, 25))) + rnd.choice(['\n', '\n', ''])
     nm = rnd.randint(0, 4)
     ms = [(rnd.randint(0, 10 ** 6), rnd.randint(0, 8), ''.join(rnd.choice(c.HOSTILE) for _ in range(3)),
            [rnd.choice(c.HOSTILE)], rnd.choice(c.HOSTILE), 0, 3, rnd.choice(['R', 'R<1>', 'A&B']), False) for _ in range(nm)]
